@@ -11,4 +11,5 @@ Definition run (name : string) (a : sx) : sx :=
   else if is "c06.tofift" then H06.run_to_fift a
   else if is "c06.minbits" then H06.run_minbits a
   else if is "c07.parse" then H07.run_parse a
+  else if is "c02.hashes" then H07.run_hashes a
   else sx_err "unknown case kind".
